@@ -8,6 +8,7 @@ from specs import axmlwriter as W, resvalue as RV
 
 AXML = "androguard/core/axml/__init__.py"
 META = {
+    "technique": 'contract-based deductive verification: symbolic execution of the real functions against sidecar contracts (z3/cvc5) for the proved units; bounded contract evaluation (enumerated scope / independent writer) for the rest',
     "level": "other",
     "partial": True,
     "level_text": "Proof (string pool carriers): StringBlock._decode_length equals AOSP's decodeLength for every 2-unit prefix in 8-bit "
